@@ -9,7 +9,7 @@
     * if no OPAQUE token was written, `items` is well-formed for every reader context
       that agrees with the encoder (`wf`).
 -/
-import Wbxml.Lemmas.EncWTbl
+import Wbxml.Lemmas.EncWPos
 namespace Wbxml.Lemmas.EncW
 open Wbxml Wbxml.Model Wbxml.Spec Wbxml.Lemmas.ParseSer
 open Wbxml.Model.Codec (mbEncode)
@@ -305,6 +305,41 @@ def ViewL (c : WCfg) (l : List Node) (st st' : WSt) (items : List Item) : Prop :
     ∀ ctx : Ctx, Rd c st'.strtbl ctx → ∀ own,
       (evItems ctx own ⟨st.tagPage, st.attrPage⟩ items).1.flatMap toks = srcToksL c l
 
+/-- An element is well-formed for a reader at `Pos` when its attributes are and its content is for
+    the reader position of the children. -/
+theorem wfT_elem (c : WCfg) (name : Name) (src : List (Bytes × Bytes)) (st st1 : WSt) (hasC : Bool) (sw tag as)
+    (hs : StartRes c name.cName src st st1 hasC sw tag as) (hlink : TagLink c name st sw tag)
+    (hn : nameOver c.lang name = true) (hl : langOk c.lang = true)
+    (ctx : Ctx) (hc1 : Compat c st1.strtbl ctx) (hattrs : wfAttrs ctx st.attrPage as = true)
+    (parent : Option Name) (cur : Option TagRow) (ty pre : Bool) (own slot : Option TagRow)
+    (hpos : Pos c ctx parent cur ty pre own slot) (content : Option (List Item))
+    (hkids : ∀ own' slot', Pos c ctx (some name) (foundOf c name st) (kidsTy c.lang ty name) true own' slot' →
+      wfContent ctx own' slot' ⟨swPage sw st.tagPage, (evAttrs ctx st.attrPage as).2⟩ content = true) :
+    wfItems ctx own slot ⟨st.tagPage, st.attrPage⟩ [.elem (.mk sw tag as content)] = true := by
+  have htag := tagOk_wf c _ _ _ _ _ hs.tag ctx hc1 hl
+  rw [wfItems_single, wfItem_elem, wfElem_mk, htag.1, htag.2, hattrs]
+  simp only [Bool.and_self, Bool.true_and]
+  exact hkids _ _ (hpos.kids hc1.lang hl name hn st sw tag hlink)
+
+/-- **Typed content included**: under the source hypotheses (each one a recorded finding, see
+    `Lemmas/EncWTyped.lean`) the items written for a node are well-formed for every reader context
+    that agrees with the encoder and stands at the same position (`Pos`). -/
+def WfN (c : WCfg) (parent : Option Name) (n : Node) (st st' : WSt) (items : List Item) : Prop :=
+  ∀ (ty pre : Bool), typedLangOk c.lang = true →
+    noCdataInTyped c.lang ty n = true → validDatetimeAttrs c.lang n = true →
+    b64TextDecodes c parent n = true → keyValueTextFirst c parent pre n = true →
+    ∀ ctx, Compat c st'.strtbl ctx → (∀ d ∈ opqsItems items, d.length < 4294967296) →
+    ∀ own slot, Pos c ctx parent st.curTag ty pre own slot →
+      wfItems ctx own slot ⟨st.tagPage, st.attrPage⟩ items = true
+
+def WfL (c : WCfg) (parent : Option Name) (l : List Node) (st st' : WSt) (items : List Item) : Prop :=
+  ∀ (ty pre : Bool), typedLangOk c.lang = true →
+    noCdataInTypedL c.lang ty l = true → validDatetimeAttrsL c.lang l = true →
+    b64TextDecodesL c parent l = true → keyValueTextFirstL c parent pre l = true →
+    ∀ ctx, Compat c st'.strtbl ctx → (∀ d ∈ opqsItems items, d.length < 4294967296) →
+    ∀ own slot, Pos c ctx parent st.curTag ty pre own slot →
+      wfItems ctx own slot ⟨st.tagPage, st.attrPage⟩ items = true
+
 /-- **The node walk writes content items of the grammar** (`Seg`), for every node (any depth, any
     language whose tables satisfy `langOk`, any tree over that language) and every state that
     satisfies the string-table invariant; an element node yields exactly one element; `current_tag`
@@ -315,19 +350,23 @@ theorem encNode_seg :
       langOk c.lang = true → nodeOver c.lang n = true → StrInv st →
       ∀ st', encNodeG c parent encEnd n st = .ok st' →
         ∃ items, Seg c st st' items ∧ (isElt n = true → ∃ e, items = [.elem e]) ∧
-          st'.curTag = none ∧ ViewN c n st st' items) ∧
+          st'.curTag = none ∧ ViewN c n st st' items ∧ WfN c parent n st st' items ∧
+          (isTextN n = true → ∀ slot, slotEnd slot items = slot)) ∧
     (∀ (c : WCfg) (parent : Option Name) (l : List Node) (st : WSt),
       langOk c.lang = true → nodesOver c.lang l = true → StrInv st →
-      ∀ st', encNodesW c parent l st = .ok st' → ∃ items, Seg c st st' items ∧ ViewL c l st st' items) := by
+      ∀ st', encNodesW c parent l st = .ok st' →
+        ∃ items, Seg c st st' items ∧ ViewL c l st st' items ∧ WfL c parent l st st' items) := by
   apply encNodeG.mutual_induct
     (motive_1 := fun c parent encEnd n st => encEnd = true →
       langOk c.lang = true → nodeOver c.lang n = true → StrInv st →
       ∀ st', encNodeG c parent encEnd n st = .ok st' →
         ∃ items, Seg c st st' items ∧ (isElt n = true → ∃ e, items = [.elem e]) ∧
-          st'.curTag = none ∧ ViewN c n st st' items)
+          st'.curTag = none ∧ ViewN c n st st' items ∧ WfN c parent n st st' items ∧
+          (isTextN n = true → ∀ slot, slotEnd slot items = slot))
     (motive_2 := fun c parent l st =>
       langOk c.lang = true → nodesOver c.lang l = true → StrInv st →
-      ∀ st', encNodesW c parent l st = .ok st' → ∃ items, Seg c st st' items ∧ ViewL c l st st' items)
+      ∀ st', encNodesW c parent l st = .ok st' →
+        ∃ items, Seg c st st' items ∧ ViewL c l st st' items ∧ WfL c parent l st st' items)
   · -- element
     intro c parent encEnd name attrs kids st ih hend hl hover hinv st' h
     subst hend
@@ -337,7 +376,7 @@ theorem encNode_seg :
     obtain ⟨st1, h1, h⟩ := bind_ok' h
     obtain ⟨st2, h2, h⟩ := bind_ok' h
     have h3 := ok_inj h
-    obtain ⟨sw, tag, as, hs⟩ := encElementStartW_spec c name attrs (!kids.isEmpty) st st1 hl hname hattrs h1
+    obtain ⟨sw, tag, as, hs, hlink, hwfA⟩ := encElementStartW_spec' c name attrs (!kids.isEmpty) st st1 hl hname hattrs h1
     have hcur := encElementStartW_cur c _ name attrs _ st st1 h1
     -- the reader's start and end events for this element
     have hname_view : ∀ ctx : Ctx, Rd c st1.strtbl ctx →
@@ -350,7 +389,15 @@ theorem encNode_seg :
       subst this
       simp only [List.isEmpty_nil, Bool.not_true, Bool.and_false, Bool.false_eq_true, ↓reduceIte] at h3 hs
       subst h3
-      refine ⟨_, (Seg.elem_empty c _ _ st st1 sw tag as hs).congr_right rfl rfl rfl rfl rfl, fun _ => ⟨_, rfl⟩, rfl, ?_⟩
+      refine ⟨_, (Seg.elem_empty c _ _ st st1 sw tag as hs).congr_right rfl rfl rfl rfl rfl, fun _ => ⟨_, rfl⟩, rfl, ?_,
+        ?_, fun h => (by cases h)⟩
+      rotate_left
+      · intro ty pre htl _ h2 h3 _ ctx hc _ own slot hpos
+        rw [validDatetimeAttrs, Bool.and_eq_true] at h2
+        rw [b64TextDecodes, Bool.and_eq_true] at h3
+        have hc1 : Compat c st1.strtbl ctx := hc
+        exact wfT_elem c name _ st st1 _ sw tag as hs hlink hname hl ctx hc1 (hwfA ctx hc1 hl htl h2.1 h3.1)
+          parent st.curTag ty pre own slot hpos none (fun _ _ _ => by rw [wfContent])
       intro _ _ hnta hcd _
       refine ⟨by show st1.inCdata = false; rw [hcur.1, hcd], ?_, ?_⟩
       · rw [opqsItems_single, opqsItem_elem, opqsElem_mk, opqsContent_none, hs.noopq hnta]; rfl
@@ -362,10 +409,26 @@ theorem encNode_seg :
       rfl
     | cons k ks =>
       simp only [List.isEmpty_cons, Bool.not_false, Bool.and_self, ↓reduceIte] at h3 hs
-      obtain ⟨items, hk, hkv⟩ := ih st1 hl hkids (hs.tbl.inv hinv) st2 h2
+      obtain ⟨items, hk, hkv, hkw⟩ := ih st1 hl hkids (hs.tbl.inv hinv) st2 h2
       subst h3
       refine ⟨_, (Seg.elem_content c _ _ st st1 st2 sw tag as items hs hk).congr_right rfl rfl rfl rfl rfl,
-        fun _ => ⟨_, rfl⟩, rfl, ?_⟩
+        fun _ => ⟨_, rfl⟩, rfl, ?_, ?_, fun h => (by cases h)⟩
+      rotate_left
+      · intro ty pre htl h1' h2' h3' h4' ctx hc hsz own slot hpos
+        rw [noCdataInTyped] at h1'
+        rw [validDatetimeAttrs, Bool.and_eq_true] at h2'
+        rw [b64TextDecodes, Bool.and_eq_true] at h3'
+        rw [keyValueTextFirst] at h4'
+        have hc2 : Compat c st2.strtbl ctx := hc
+        have hc1 : Compat c st1.strtbl ctx := hc2.mono hk.tbl.pre
+        refine wfT_elem c name _ st st1 _ sw tag as hs hlink hname hl ctx hc1 (hwfA ctx hc1 hl htl h2'.1 h3'.1)
+          parent st.curTag ty pre own slot hpos (some items) ?_
+        intro own' slot' hpos'
+        rw [wfContent_some, ← hs.tp, ← hs.ap ctx]
+        refine hkw _ true htl h1' h2'.2 h3'.2 h4' ctx hc2 ?_ own' slot' (by rw [hcur.2]; exact hpos')
+        intro d hd
+        exact hsz d (by rw [opqsItems_single, opqsItem_elem, opqsElem_mk, opqsContent_some]
+                        exact List.mem_append_right _ hd)
       intro hpn hpl hnta hcd _
       rw [plainNode] at hpn
       obtain ⟨hcd2, _, hnoq, hview⟩ := hkv hpn hpl hnta (by rw [hcur.1, hcd])
@@ -387,9 +450,15 @@ theorem encNode_seg :
     obtain ⟨st1, h1, h⟩ := bind_ok' h
     have h3 := ok_inj h
     subst h3
-    obtain ⟨items, hleaf, ho, htp, hap, ht, hlen, hcdeq, hv⟩ := encTextW_spec c parent s st st1 hinv h1
+    obtain ⟨items, hleaf, ho, htp, hap, ht, hlen, hcdeq, hv, hout⟩ := encTextW_spec' c parent s st st1 hinv h1
     refine ⟨items, (Seg.leaves c st st1 items hleaf ho htp hap ht hlen).congr_right rfl rfl rfl rfl rfl,
-      fun h => (by cases h), rfl, ?_⟩
+      fun h => (by cases h), rfl, ?_, ?_, fun _ slot => slotEnd_leaves c st.strtbl slot items hleaf⟩
+    rotate_left
+    · intro ty pre htl _ _ h3 h4 ctx hc hsz own slot hpos
+      have hc0 : Compat c st.strtbl ctx := by
+        have : st1.strtbl = st.strtbl := ht
+        exact ⟨hc.lang, hc.cs, fun e he => hc.offs e (by show e ∈ st1.strtbl; rw [this]; exact he)⟩
+      exact text_wfT c parent s st items hleaf hout hl htl ty pre h3 h4 ctx hc0 hsz own slot hpos _
     intro _ hpl _ hcd hbin
     simp only [plainLang, Bool.and_eq_true, Bool.not_eq_true'] at hpl
     obtain ⟨hnoq, hv⟩ := hv hpl.1.1 hpl.1.2 hl hcd hbin
@@ -408,8 +477,20 @@ theorem encNode_seg :
     rw [nodeOver] at hover
     simp only [encNodeG, hs] at h
     obtain ⟨st2, h2, h⟩ := bind_ok' h
-    obtain ⟨items, hk, _⟩ := ih hl hover (hinv.of_eq rfl rfl) st2 h2
+    obtain ⟨items, hk, _, hkw⟩ := ih hl hover (hinv.of_eq rfl rfl) st2 h2
     have hk' : Seg c st st2 items := hk.congr_left rfl rfl rfl rfl rfl
+    have hkw' : ∀ (ty pre : Bool), typedLangOk c.lang = true → noCdataInTyped c.lang ty (.cdata kids) = true →
+        validDatetimeAttrs c.lang (.cdata kids) = true → b64TextDecodes c parent (.cdata kids) = true →
+        keyValueTextFirst c parent pre (.cdata kids) = true →
+        ∀ ctx, Compat c st2.strtbl ctx → (∀ d ∈ opqsItems items, d.length < 4294967296) →
+        ∀ own slot, Pos c ctx parent st.curTag ty pre own slot →
+          ty = false ∧ wfItems ctx own slot ⟨st.tagPage, st.attrPage⟩ items = true := by
+      intro ty pre htl h1' h2' h3' h4' ctx hc hsz own slot hpos
+      rw [noCdataInTyped, Bool.and_eq_true] at h1'
+      rw [validDatetimeAttrs] at h2'
+      rw [b64TextDecodes] at h3'
+      rw [keyValueTextFirst] at h4'
+      exact ⟨by simpa using h1'.1, hkw ty pre htl h1'.2 h2' h3' h4' ctx hc hsz own slot hpos.cdata⟩
     split at h
     · cases h
     · rename_i cd hcd
@@ -421,11 +502,23 @@ theorem encNode_seg :
           Seg.leaves c st2 _ [.opaque cd]
             (by intro it hit; simp only [List.mem_cons, List.mem_nil_iff, or_false] at hit; subst hit; exact .opq cd)
             (by rw [serItems_single, serItem_opq]; rfl) rfl rfl rfl rfl
-        exact ⟨_, (hk'.append hop).congr_right rfl rfl rfl rfl rfl, fun h => (by cases h), trivial,
-          fun hp => (by simp [plainNode] at hp)⟩
+        refine ⟨_, (hk'.append hop).congr_right rfl rfl rfl rfl rfl, fun h => (by cases h), trivial,
+          fun hp => (by simp [plainNode] at hp), ?_, fun h => (by cases h)⟩
+        intro ty pre htl h1' h2' h3' h4' ctx hc hsz own slot hpos
+        have hc2 : Compat c st2.strtbl ctx := hc
+        obtain ⟨hty, hkids⟩ := hkw' ty pre htl h1' h2' h3' h4' ctx hc2
+          (fun d hd => hsz d (by rw [opqsItems_append]; exact List.mem_append_left _ hd)) own slot hpos
+        rw [wfItems_append, hkids, Bool.true_and]
+        have hnext := hpos.next items false (fun h => by cases h)
+        obtain ⟨hu1, hu2⟩ := hnext.unt hty
+        refine opaque_wf_untyped ctx own _ _ cd ?_ (by rw [hc.lang]; exact hu1) (by rw [hc.lang]; exact hu2)
+        exact hsz cd (by rw [opqsItems_append, opqsItems_single, opqsItem_opaque]
+                         exact List.mem_append_right _ List.mem_cons_self)
       · simp only [hlen, ↓reduceIte]
-        exact ⟨items, hk'.congr_right rfl rfl rfl rfl rfl, fun h => (by cases h), trivial,
-          fun hp => (by simp [plainNode] at hp)⟩
+        refine ⟨items, hk'.congr_right rfl rfl rfl rfl rfl, fun h => (by cases h), trivial,
+          fun hp => (by simp [plainNode] at hp), ?_, fun h => (by cases h)⟩
+        intro ty pre htl h1' h2' h3' h4' ctx hc hsz own slot hpos
+        exact (hkw' ty pre htl h1' h2' h3' h4' ctx hc hsz own slot hpos).2
   · -- nested tree without language
     intro c parent encEnd cs root st _ _ _ _ st' h
     simp only [encNodeG] at h
@@ -444,13 +537,20 @@ theorem encNode_seg :
       Seg.leaves c st _ [.opaque _]
         (by intro it hit; simp only [List.mem_cons, List.mem_nil_iff, or_false] at hit; subst hit; exact .opq _)
         (by rw [serItems_single, serItem_opq]; rfl) rfl rfl rfl rfl
-    exact ⟨_, hop.congr_right rfl rfl rfl rfl rfl, fun h => (by cases h), rfl, fun hp => (by simp [plainNode] at hp)⟩
+    refine ⟨_, hop.congr_right rfl rfl rfl rfl rfl, fun h => (by cases h), rfl, fun hp => (by simp [plainNode] at hp),
+      ?_, fun h => (by cases h)⟩
+    intro ty pre htl h1' _ _ _ ctx hc hsz own slot hpos
+    rw [noCdataInTyped] at h1'
+    have hty : ty = false := by simpa using h1'
+    obtain ⟨hu1, hu2⟩ := hpos.unt hty
+    refine opaque_wf_untyped ctx own slot _ _ ?_ (by rw [hc.lang]; exact hu1) (by rw [hc.lang]; exact hu2)
+    exact hsz _ (by rw [opqsItems_single, opqsItem_opaque]; exact List.mem_cons_self)
   · -- end of a sibling chain
     intro c parent st _ _ _ st' h
     simp only [encNodesW] at h
     have := ok_inj h
     subst this
-    refine ⟨[], Seg.nil c st, ?_⟩
+    refine ⟨[], Seg.nil c st, ?_, fun _ _ _ _ _ _ _ _ _ _ _ _ _ => by rw [wfItems]⟩
     intro _ _ _ hcd hbin
     exact ⟨hcd, hbin, opqsItems_nil, fun ctx _ own => by rw [evItems_nil, srcToksL]; rfl⟩
   · -- a node and its later siblings
@@ -458,9 +558,25 @@ theorem encNode_seg :
     rw [nodesOver, Bool.and_eq_true] at hover
     simp only [encNodesW] at h
     obtain ⟨st1, h1, h⟩ := bind_ok' h
-    obtain ⟨a, ha, _, hcur1, hva⟩ := ih1 rfl hl hover.1 hinv st1 h1
-    obtain ⟨b, hb, hvb⟩ := ih2 st1 hl hover.2 (ha.tbl.inv hinv) st' h
-    refine ⟨a ++ b, ha.append hb, ?_⟩
+    obtain ⟨a, ha, _, hcur1, hva, hwa, hta⟩ := ih1 rfl hl hover.1 hinv st1 h1
+    obtain ⟨b, hb, hvb, hwb⟩ := ih2 st1 hl hover.2 (ha.tbl.inv hinv) st' h
+    refine ⟨a ++ b, ha.append hb, ?_, ?_⟩
+    rotate_left
+    · intro ty pre htl h1' h2' h3' h4' ctx hc hsz own slot hpos
+      rw [noCdataInTypedL, Bool.and_eq_true] at h1'
+      rw [validDatetimeAttrsL, Bool.and_eq_true] at h2'
+      rw [b64TextDecodesL, Bool.and_eq_true] at h3'
+      rw [keyValueTextFirstL, Bool.and_eq_true] at h4'
+      rw [wfItems_append, hwa ty pre htl h1'.1 h2'.1 h3'.1 h4'.1 ctx (hc.mono hb.tbl.pre)
+        (fun d hd => hsz d (by rw [opqsItems_append]; exact List.mem_append_left _ hd)) own slot hpos,
+        Bool.true_and, ha.pages ctx own]
+      refine hwb ty (pre && isTextN n) htl h1'.2 h2'.2 h3'.2 h4'.2 ctx hc
+        (fun d hd => hsz d (by rw [opqsItems_append]; exact List.mem_append_right _ hd)) own _ ?_
+      rw [hcur1]
+      refine hpos.next a _ ?_
+      intro hp
+      rw [Bool.and_eq_true] at hp
+      exact ⟨hp.1, hta hp.2 slot⟩
     intro hpn hpl hnta hcd hbin
     rw [plainNodes, Bool.and_eq_true] at hpn
     obtain ⟨hcd1, hnoq1, hview1⟩ := hva hpn.1 hpl hnta hcd hbin
